@@ -1,10 +1,70 @@
 # table of claimed checks; exec'd by tools_manifest.py
-TB = ("Trusted base: CPython 3.12, the harness's reference models under /verif/rv/model, "
-      "and the workload generators; nothing is proved - the verdict covers exactly the executions "
-      "counted in the evidence file.")
+TB = ("Trusted base: CPython 3.12, the harness's reference models under /verif/rv/model and the workload "
+      "generators; nothing is proved - the verdict covers exactly the executions counted in the evidence file. ")
+EX = "exploration"
 
-add("C01", "exploration", "runtime monitor: independent SGR interpreter on str(f) vs construction spec",
-    "Every attribute set (5184 two-state in quick, 59049 tri-state in thorough) is executed on the real "
-    "code and the terminal string is interpreted by an independent SGR model; multi-run strings are "
-    "sampled at random. Exhaustive over attribute sets, sampled over texts and run layouts.",
-    TB + " Text restricted to strings free of ESC/0x9B as the quantifier says.")
+add("C01", EX, "runtime monitor: independent SGR interpreter on str(f) vs construction spec",
+    "Every attribute set (5184 two-state in quick, 59049 tri-state in thorough, plus adjacent pairs) is executed on "
+    "the real code and the terminal string is interpreted by an independent SGR model; multi-run strings sampled. "
+    "Exhaustive over attribute sets, sampled over texts and run layouts.",
+    TB + "Text free of ESC/0x9B as the quantifier says.")
+add("C03", EX, "runtime monitor: decoder facts (prefix trie + incremental codecs) at every node of the decoder's decision tree; end-to-end equality through Input over a pty",
+    "The real get_key is driven byte by byte over its whole decision tree for ascii and latin-1 (complete) and the "
+    "ESC subtree/two levels of utf-8, every table sequence x every byte, table pairs, Unicode scalars (all in "
+    "thorough), random chunked streams, and the same reads through Input.send over a pty. One recorded finding "
+    "(prefix then undecodable byte).",
+    TB + "Names come from the live tables; facts from an independent prefix set and Python's codecs. Deeper invalid "
+    "UTF-8 continuations are sampled, not enumerated.")
+add("C04", EX, "runtime monitor: cell-grid reference model stepped alongside the real FSArray + icontract row-width invariant",
+    "Random assignment histories on small arrays with a grid model compared cell by cell after every step, must-raise "
+    "cases checked for no visible change; thorough adds all regions x row-length classes on pre-filled 3x3 arrays.",
+    TB + "Long rows landing on never-written cells and zero-area regions are don't-care (counted).")
+add("C05", EX, "runtime monitor: round trip and grammar strings compared per cell with the SGR interpreter",
+    "All attribute sets round-tripped with newline/tab/wide text, random multi-run round trips, random strings of "
+    "the SGR grammar interpreted by the reference interpreter and compared with the parse result.",
+    TB + "Grammar restricted to the supported codes and the empty parameter list (the quantifier).")
+add("C06", EX, "runtime monitor: Python list operations on observed cell lists as postcondition oracle",
+    "Every run layout up to the bound x every slice bound/index in [-len-2, len+2]+None, all layout pairs for +, "
+    "repeat counts, joins; results' cells compared with list operations on operand cells.",
+    TB + "Cells observed through str()+SGR interpreter (C01).")
+add("C09", EX, "runtime monitor: list splice on cell lists as postcondition oracle",
+    "Every layout x replacement family x every 0<=start<=end<=len+2 (and end omitted), append, random larger cases; "
+    "operands re-observed afterwards.",
+    TB + "Cells observed through str()+SGR interpreter (C01).")
+add("C10", EX, "runtime monitor: column-expanded cell model with widths from the pure-Python wcwidth package",
+    "Every string up to length 3 (5 thorough) over narrow/wide/combining characters x run partitions x every column "
+    "range and offset, compared with a column model independent of cwcwidth.",
+    TB + "Alphabet restricted to characters on which wcwidth and cwcwidth agree; zero-width characters judged up to attachment.")
+add("C11", EX, "runtime monitor: greedy reference wrap on cells",
+    "Every string up to length 4 (6 thorough) x run partitions x columns 2..7 wrapped by the real code and compared "
+    "line by line with a reference wrap.",
+    TB + "Placement of zero-width characters at line boundaries is not judged (they must all survive in order).")
+add("C13", EX, "runtime monitor: snapshot registry over straight-line programs + icontract class invariant on memo slots + in-place edit attempts",
+    "Seeded programs over a growing pool using the whole public operation set with interleaved observations; every "
+    "value's snapshot must never change, memo slots must equal recomputed values (invariant around every method "
+    "call), edits must raise.",
+    TB + "The memo invariant names the private slots; the behavioural comparison with a fresh copy does not.")
+add("C14", EX, "runtime monitor: attribute algebra on cells, all spellings compared",
+    "All 59049 specifications (thorough; sample in quick) x 4 base values x 6 spellings; removal of every attribute "
+    "subset; copy_with_new_str; shared_atts; invalid catalogue must raise ValueError.",
+    TB + "Non-bool style values are recorded, not judged.")
+add("C15", EX, "runtime monitor: the str method on the plain text as oracle + positional cell bookkeeping",
+    "Enumerated small texts and random layouts x curated str methods x argument pool; text equality with str, "
+    "per-position formatting for split/splitlines, shared formatting and no invented formatting otherwise.",
+    TB + "Nothing is demanded where str itself raises; padding of ljust/rjust only needs to be free of invented formatting.")
+add("C16", EX, "runtime monitor: greedy first-fit reference wrap on cells",
+    "Every text up to length 5 (7 thorough) over {a,b,space,tab,newline} x 4 formatting patterns x columns 1..7 plus "
+    "random longer texts compared with a reference wrap; joining-space formatting rule checked.",
+    TB)
+add("C17", EX, "runtime monitor: tagged-piece generator (text known by construction) + subsequence oracle",
+    "All strings of <=3 (5 thorough) tokens over a 14-token alphabet, random longer ones, tagged text/escape mixtures, "
+    "Pygments output of the repository's sources: never raises, subsequence, text pieces kept, exact for numeric CSI.",
+    TB)
+add("C19", EX, "runtime monitor: ==/hash/set/dict vs terminal-string equality on all ordered pairs of a pool; eval(repr) cells",
+    "All ordered pairs of a 400-value (1500 thorough) engineered pool, plain-str comparisons in both operand orders, "
+    "eval(repr(f)) for every value with a run.",
+    TB + "Text free of ESC/0x9B.")
+add("C20", EX, "runtime monitor: three naming modes executed per node of the decoder's decision tree; producible-name set collected by observation",
+    "Every node of the C03 exploration in all modes and both full situations; tables nested; every valid configuration "
+    "name must map to names observed from the decoder.",
+    TB + "Upper-case C-A, C-1, F13, M-<space> are not configuration-file keys (not judged).")
